@@ -278,7 +278,7 @@ class FullOps(TorchCalls):
                 self.ev("finite_check", node)
         elif fn not in LIKE and a0 is not None and a0.note != "finite-test":
             self.note_value_use(a0, node)
-            if fn not in CREATORS:
+            if fn not in CREATORS and fn not in ("matmul", "mm", "mv", "dot", "inner", "bmm", "vdot", "add", "sub", "subtract", "mul", "multiply", "div", "divide", "true_divide", "pow", "power"):
                 self.ev("op", node, op=fn, left=a0.short())
         # ---- RNG
         if fn in RNG_FUNCS or lib == "numpy.random.":
